@@ -173,6 +173,18 @@ def mod(fmt, arg):
     return fmt % arg
 
 
+# ---------------------------------------------------------------- bitwise operators
+def bitop(opname, a, b):
+    """a & b, a | b, a ^ b.  numpy hands a sized scalar to an object array as a plain Python int,
+    which would lose its dtype (and with it numpy's promotion rules): keep it as a typed constant."""
+    if core.active():
+        if _symbolic_array(a) and isinstance(b, np.integer):
+            b = BV(int(b), b.dtype)
+        elif _symbolic_array(b) and isinstance(a, np.integer):
+            a = BV(int(a), a.dtype)
+    return getattr(operator, opname)(a, b)
+
+
 # ---------------------------------------------------------------- 6. dtype
 def dtype_of(x):
     COUNTS['dtype'] += 1
